@@ -15,6 +15,7 @@ import (
 	"strconv"
 	"strings"
 	"sync"
+	"sync/atomic"
 	"testing"
 	"time"
 	"unicode/utf8"
@@ -45,9 +46,50 @@ type Case struct {
 	Ints      []int          `json:"ints,omitempty"`
 	Strs      []string       `json:"strs,omitempty"`
 	DocKind   string         `json:"doc_kind,omitempty"`
+	Prefix    []PrefixCall   `json:"prefix,omitempty"` // Parse calls made in the process right before the case (replayed first)
 	Note      string         `json:"violation,omitempty"`
 	Expected  string         `json:"expected,omitempty"`
 	Got       string         `json:"got,omitempty"`
+}
+
+// PrefixCall is one earlier Parse call of the process. A defect that makes Parse depend on
+// earlier calls shows up in single-call properties too (thousands of cases share a process);
+// such a failure only reproduces in a fresh process together with the calls before it, so the
+// last few are saved with the failing case and re-executed first by the replay.
+type PrefixCall struct {
+	Path     string `json:"path"`
+	PathRaw  []byte `json:"path_raw,omitempty"`
+	Funcs    bool   `json:"funcs,omitempty"`
+	Accessor bool   `json:"accessor,omitempty"`
+}
+
+var recentCalls []PrefixCall
+
+const recentCallsMax = 8
+
+func noteParse(path string, funcs, accessor bool) {
+	pc := PrefixCall{Path: path, Funcs: funcs, Accessor: accessor}
+	if !utf8.ValidString(path) {
+		pc.PathRaw = []byte(path)
+	}
+	recentCalls = append(recentCalls, pc)
+	if len(recentCalls) > recentCallsMax {
+		recentCalls = recentCalls[len(recentCalls)-recentCallsMax:]
+	}
+}
+
+func replayPrefix(prefix []PrefixCall) {
+	for _, pc := range prefix {
+		path := pc.Path
+		if len(pc.PathRaw) > 0 {
+			path = string(pc.PathRaw)
+		}
+		if !pc.Funcs && !pc.Accessor {
+			_, _ = jsonpath.Parse(path)
+		} else {
+			_, _ = jsonpath.Parse(path, BuildConfig(nil, pc.Funcs, pc.Accessor))
+		}
+	}
 }
 
 // Op is one operation of a history (stateful checks).
@@ -386,6 +428,7 @@ func (c *Case) Restore() {
 // RunCase runs the registered check of the case.
 func RunCase(c *Case, st *Stats) string {
 	c.Restore()
+	replayPrefix(c.Prefix)
 	fn, ok := replayers[c.Check]
 	if !ok {
 		return "harness: no replayer for check " + c.Check
@@ -393,10 +436,58 @@ func RunCase(c *Case, st *Stats) string {
 	return safeRun(fn, c, st)
 }
 
+// ---- hang detection (DESIGN §3.5) ----
+// A watchdog goroutine aborts the shard when one case runs longer than hangLimit; it saves the
+// case as a pending replay first. Normal cases cost micro- to milliseconds, so the limit is 4-6
+// orders of magnitude above them; the driver confirms by replaying the case alone.
+
+var hangLimit = 20 * time.Second
+var currentCase atomic.Pointer[Case]
+var currentStart atomic.Int64
+var watchdogOnce sync.Once
+
+func startWatchdog() {
+	watchdogOnce.Do(func() {
+		go func() {
+			for {
+				time.Sleep(time.Second)
+				c := currentCase.Load()
+				st := currentStart.Load()
+				if c == nil || st == 0 {
+					continue
+				}
+				if d := time.Since(time.Unix(0, st)); d > hangLimit {
+					cc := *c
+					cc.Note = fmt.Sprintf("the case did not finish within %s (hang detector)", hangLimit)
+					if !utf8.ValidString(cc.Path) {
+						cc.PathRaw = []byte(cc.Path)
+					}
+					if p := os.Getenv("VERIF_FAIL_OUT"); p != "" {
+						b, _ := json.MarshalIndent(&cc, "", " ")
+						_ = os.WriteFile(p+".pending", b, 0o644)
+					}
+					fmt.Fprintf(os.Stderr, "\nHANG-DETECTED check=%s after %.0fs path=%q\n", cc.Check, d.Seconds(), cc.Path)
+					os.Exit(3)
+				}
+			}
+		}()
+	})
+}
+
+func enterCase(c *Case) {
+	currentCase.Store(c)
+	currentStart.Store(time.Now().UnixNano())
+}
+
+func leaveCase() {
+	currentStart.Store(0)
+}
+
 // checkRapid is the common driver of a rapid-based check.
 func checkRapid(t *testing.T, property, check, rule string, draw func(rt *rapid.T) *Case) {
 	st := NewStats(property, check, rule)
 	defer st.Flush()
+	startWatchdog()
 	runSeeds(t, property, check, st)
 	fn := replayers[check]
 	rapid.Check(t, func(rt *rapid.T) {
@@ -404,7 +495,13 @@ func checkRapid(t *testing.T, property, check, rule string, draw func(rt *rapid.
 		c.Property, c.Check = property, check
 		st.Case()
 		begin := time.Now()
+		before := append([]PrefixCall(nil), recentCalls...)
+		enterCase(c)
 		msg := safeRun(fn, c, st)
+		leaveCase()
+		if msg != "" && len(c.Prefix) == 0 {
+			c.Prefix = before
+		}
 		if d := time.Since(begin); d > 2*time.Second {
 			st.Class("slow-case(>2s)")
 			fmt.Fprintf(os.Stderr, "SLOW-CASE %s %.1fs path=%q doc=%s\n", check, d.Seconds(), c.Path, c.docPreview())
